@@ -133,6 +133,23 @@ def admit_items(rng, tier):
     out.append(Admit(sid, "busy.established", [["dial", "c1"]] + hs + [["dial", "x1"], ["recv_eof", "x1", 500], ["dial", "x2"], ["recv_eof", "x2", 500]] + tail,
                      silent=["x1", "x2"], served=["c1"], alive="c1"))
     sid += 1
+    # an active peer whose outbound connection is Established: an inbound connection from it is refused silently
+    out.append(Admit(sid, "busy.outbound-established",
+                     [["accept", "c1", 2500]] + hs + [["dial", "x1"], ["recv_eof", "x1", 500], ["dial", "x2"], ["recv_eof", "x2", 500]] + tail,
+                     silent=["x1", "x2"], served=["c1"], alive="c1", passive=False, idle_hold_ms=50))
+    sid += 1
+    # two listeners: the rules hold on each of them
+    cease = S.frame(S.NOTIF, S.notif_body(6, 2)).hex()
+    hs2 = [["recv", "c2", 1, 1000], ["send", "c2", OPENM, 0], ["send", "c2", KAM, 0], ["recv", "c2", 2, 1000], ["sleep", 20]]
+    for first in (1, 2):
+        second = 3 - first
+        out.append(Admit(sid, "two-listeners.%d-then-%d" % (first, second),
+                         [["dial_to", "x1", "127.0.0.1", "127.9.9.9", first], ["recv_eof", "x1", 500],
+                          ["dial_to", "x2", "127.0.0.1", "127.9.9.9", second], ["recv_eof", "x2", 500],
+                          ["dial", "c1", first]] + hs + [["send", "c1", cease, 0], ["recv_eof", "c1", 800], ["sleep", 30],
+                          ["dial", "c2", second]] + hs2,
+                         silent=["x1", "x2"], served=["c1", "c2"], two_listeners=True))
+        sid += 1
     # held down after a protocol error at each state
     for state, pre in (("openSent", []), ("openConfirm", [["send", "c1", OPENM, 0]]), ("established", [["send", "c1", OPENM, 0], ["send", "c1", KAM, 0]])):
         for bad in (S.frame(9).hex(), S.frame(2, b"", length=5).hex(), S.frame(S.NOTIF, S.notif_body(2, 2)).hex(),
